@@ -13,7 +13,7 @@ use thiserror::Error;
 use winnow::ascii::{digit1, space0};
 use winnow::combinator::{alt, eof, opt, preceded, separated};
 use winnow::error::{AddContext, ErrMode, ErrorKind, FromExternalError, ParserError};
-use winnow::stream::{AsChar, Stream};
+use winnow::stream::Stream;
 use winnow::token::{literal, take_while};
 use winnow::{PResult, Parser};
 
@@ -692,7 +692,7 @@ fn pre_release<'s>(input: &mut &'s str) -> PResult<Vec<Identifier>, SemverParseE
 
 fn identifier<'s>(input: &mut &'s str) -> PResult<Identifier, SemverParseError<&'s str>> {
     Parser::map(
-        take_while(1.., |x: char| AsChar::is_alphanum(x as u8) || x == '-'),
+        take_while(1.., |x: char| x.is_ascii_alphanumeric() || x == '-'),
         |s: &str| {
             str::parse::<u64>(s)
                 .map(Identifier::Numeric)
